@@ -85,11 +85,26 @@ mod native {
 }
 
 /// Every symbolic value passes through this function: the runner finds the solver's values in the
-/// CBMC trace as the actual-parameter assignments to `zv_sym_val`, in execution order.
+/// CBMC trace as the actual-parameter assignments to `zv_sym_val`, in execution order. `zv_sym_seq`
+/// is the running number of the call (concrete along every path): formula slicing may drop a value
+/// the failed property does not depend on from the trace, and the gap in the numbering tells the
+/// runner where to insert a don't-care value so that later values stay aligned.
+#[cfg(kani)]
+static mut ZV_SEQ: u32 = 0;
 #[cfg(kani)]
 #[inline(never)]
-pub fn zv_rec<T>(zv_sym_val: T) -> T {
+pub fn zv_rec2<T>(zv_sym_val: T, zv_sym_seq: u32) -> T {
+    let _ = zv_sym_seq;
     zv_sym_val
+}
+#[cfg(kani)]
+#[inline(always)]
+pub fn zv_rec<T>(v: T) -> T {
+    let n = unsafe {
+        ZV_SEQ += 1;
+        ZV_SEQ
+    };
+    zv_rec2(v, n)
 }
 
 macro_rules! impl_sym_int {
